@@ -14,7 +14,7 @@
     of visited nodes with the value written and whether the choice was called. *)
 From Coq Require Import List NArith PArith Bool Arith.
 From OxiVerif Require Import DD.Table DD.TableProofs DD.BuildProofs DD.ApplyProofs DD.SatCount
-  DD.Pick DD.PickProofs DD.PickBdd DD.PickBcdd DD.PickZbdd DD.PickExamples.
+  DD.Pick DD.PickProofs DD.PickBdd DD.PickBcdd DD.PickZbdd DD.PickUniform DD.PickExamples.
 Import ListNotations.
 
 (** * BDD *)
@@ -399,3 +399,37 @@ Proof.
   split; [exact ex_zbdd_ok | exact ex_zbdd_good].
 Qed.
 Print Assumptions C13_hypotheses_satisfiable.
+
+(** * Uniform picking: the branch rule, and what [length tr] is *)
+
+(** among the [q = m * (ct + ce)] equally likely draws p/q the rule
+    "p / q < ct / (ct + ce)" of [uni_choice] sends exactly [m * ct] to the
+    then-branch: the fraction ct / (ct + ce) *)
+Theorem C13_uniform_branch_fraction : forall ct ce m : N, (0 < ct + ce)%N ->
+  N.of_nat (length (filter (fun p => (N.of_nat p * (ct + ce) <? ct * (m * (ct + ce)))%N)
+                           (seq 0 (N.to_nat (m * (ct + ce)))))) = (m * ct)%N.
+Proof. exact uni_branch_fraction. Qed.
+Print Assumptions C13_uniform_branch_fraction.
+
+Theorem C13_uniform_choice_rule : forall view count draws s k l e l' t x p q,
+  view s e = CNode l' t x -> draws k = (p, q) ->
+  uni_choice view count draws s k l e =
+  ((p * (count s t + count s x) <? count s t * q)%N, S k).
+Proof. exact uni_choice_spec. Qed.
+Print Assumptions C13_uniform_choice_rule.
+
+(** in [C13_bdd_uniform_prob] / [C13_bcdd_uniform_prob], [nlevels s - length tr]
+    is the number of don't-care entries of the returned vector *)
+Theorem C13_bdd_dont_care_count : forall St choice s st e cb tr st', BddOK s -> good_bdd s e ->
+  pick_cube_bdd St choice s st e = Some (Some (cb, tr, st')) ->
+  length (filter (fun l => match cube_lit s cb l with None => true | Some _ => false end)
+                 (seq 0 (nlevels s))) = nlevels s - length tr.
+Proof. exact pick_cube_bdd_dont_cares. Qed.
+Print Assumptions C13_bdd_dont_care_count.
+
+Theorem C13_bcdd_dont_care_count : forall St choice s st e cb tr st', BcddOK s -> good_bcdd s e ->
+  pick_cube_bcdd St choice s st e = Some (Some (cb, tr, st')) ->
+  length (filter (fun l => match cube_lit s cb l with None => true | Some _ => false end)
+                 (seq 0 (nlevels s))) = nlevels s - length tr.
+Proof. exact pick_cube_bcdd_dont_cares. Qed.
+Print Assumptions C13_bcdd_dont_care_count.
